@@ -38,36 +38,48 @@ func c19Filters() []string {
 	return ns
 }
 
-func c19Lit(f string) string {
-	if a, ok := c19Args[f]; ok {
+// filters whose parameter is optional: generated with and without it
+var c19Optional = map[string]bool{"yesno": true, "pluralize": true, "floatformat": true, "default": true, "stringformat": false}
+
+// c19Step is one filter of a chain, with or without its argument
+type c19Step struct {
+	f      string
+	hasArg bool
+}
+
+func (s c19Step) lit() string {
+	if a, ok := c19Args[s.f]; ok && s.hasArg {
 		return ":" + a.lit
 	}
 	return ""
 }
 
-func c19Val(f string) *Value {
-	if a, ok := c19Args[f]; ok {
+func (s c19Step) val() *Value {
+	if a, ok := c19Args[s.f]; ok && s.hasArg {
 		return AsValue(a.val)
 	}
 	return AsValue(nil)
 }
 
 // chain of n filters drawn from the registry
-func c19Chain(n int) []string {
+func c19Chain(n int) []c19Step {
 	fs := c19Filters()
 	if verifParam("core", 0) == 1 {
 		fs = []string{"lower", "upper", "capfirst", "cut", "addslashes", "escape", "length", "first", "last", "default", "add", "make_list", "join", "slice", "center", "title", "yesno", "wordcount", "urlencode", "truncatechars"}
 	}
-	c := make([]string, n)
+	c := make([]c19Step, n)
 	for i := range c {
-		c[i] = fs[verifChoice(len(fs))]
+		c[i] = c19Step{f: fs[verifChoice(len(fs))], hasArg: true}
+		if c19Optional[c[i].f] && verifChoice(2) == 1 {
+			c[i].hasArg = false
+		}
 	}
 	return c
 }
 
-func c19Compose(chain []string, v *Value) (string, bool) {
-	for _, f := range chain {
-		r, err := ApplyFilter(f, v, c19Val(f))
+func c19Compose(chain []c19Step, v *Value) (string, bool) {
+	for _, st := range chain {
+		r, err := ApplyFilter(st.f, v, st.val())
 		if err != nil {
 			return "", false
 		}
@@ -76,10 +88,10 @@ func c19Compose(chain []string, v *Value) (string, bool) {
 	return v.String(), true
 }
 
-func c19Expr(name string, chain []string) string {
+func c19Expr(name string, chain []c19Step) string {
 	s := name
-	for _, f := range chain {
-		s += "|" + f + c19Lit(f)
+	for _, st := range chain {
+		s += "|" + st.f + st.lit()
 	}
 	return s
 }
@@ -100,11 +112,11 @@ func HarnessC19Chain() {
 	}
 	if n > 0 {
 		fsrc := ""
-		for i, f := range chain {
+		for i, st := range chain {
 			if i > 0 {
 				fsrc += "|"
 			}
-			fsrc += f + c19Lit(f)
+			fsrc += st.f + st.lit()
 		}
 		out2, ok2 := render("{% autoescape off %}{% filter "+fsrc+" %}{{ v }}{% endfilter %}{% endautoescape %}", Context{"v": v})
 		verifAssert(ok2 == wok, "filter tag fails iff the composition fails")
@@ -122,7 +134,7 @@ func HarnessC19Positions() {
 	want, wok := c19Compose(chain, AsValue(v))
 	verifAssume(wok)
 	e := c19Expr("v", chain)
-	pos := verifChoice(11)
+	pos := verifChoice(12)
 	verifObserve("pos", pos)
 	verifObserve("expr", e)
 	var src, exp string
@@ -150,13 +162,25 @@ func HarnessC19Positions() {
 		lit, ok := c19Compose(chain, AsValue("Li"))
 		verifAssume(ok)
 		src, exp = "{{ "+c19Expr("\"Li\"", chain)+" }}", lit
+	case 11: // subscript position: the filtered value selects the element
+		cv := AsValue(v)
+		for _, st := range chain {
+			cv, _ = ApplyFilter(st.f, cv, st.val())
+		}
+		idx, _ := ApplyFilter("length", cv, nil)
+		items := []string{"i0", "i1", "i2", "i3", "i4", "i5", "i6", "i7", "i8"}
+		src = "{{ items["+e+"|length] }}"
+		exp = ""
+		if idx.Integer() < len(items) {
+			exp = items[idx.Integer()]
+		}
 	case 9: // if position: truthiness of the filtered value
 		r, _ := ApplyFilter("length", AsValue(v), nil)
 		_ = r
 		src = "{% if "+e+" %}T{% else %}F{% endif %}"
 		cv := AsValue(v)
-		for _, f := range chain {
-			cv, _ = ApplyFilter(f, cv, c19Val(f))
+		for _, st := range chain {
+			cv, _ = ApplyFilter(st.f, cv, st.val())
 		}
 		if cv.IsTrue() {
 			exp = "T"
@@ -166,13 +190,13 @@ func HarnessC19Positions() {
 	default: // for position: iterate the filtered value
 		src = "{% for c in "+e+" %}[{{ c }}]{% endfor %}"
 		cv := AsValue(v)
-		for _, f := range chain {
-			cv, _ = ApplyFilter(f, cv, c19Val(f))
+		for _, st := range chain {
+			cv, _ = ApplyFilter(st.f, cv, st.val())
 		}
 		exp = ""
 		cv.Iterate(func(idx, count int, key, value *Value) bool { exp += "[" + key.String() + "]"; return true }, func() {})
 	}
-	out, ok := render("{% autoescape off %}"+src+"{% endautoescape %}", Context{"v": v, "w": w})
+	out, ok := render("{% autoescape off %}"+src+"{% endautoescape %}", Context{"v": v, "w": w, "items": []string{"i0", "i1", "i2", "i3", "i4", "i5", "i6", "i7", "i8"}})
 	verifAssert(ok, "chain at this position must render")
 	verifObserve("out", out)
 	verifAssert(out == exp, "filter chain at this expression position differs from the ApplyFilter composition")
